@@ -29,6 +29,12 @@ FD = c07.FD
 MAXC = "ruzstd::common::MAX_BLOCK_SIZE"
 
 
+# "together with the window limit": the limit check before any window-sized allocation (C11), reported as C05.limit
+INCLUDES = [
+    ("c11", "C05.limit", {"rules": ("C11.dom.check-before-alloc", "C11.cmp.operator", "C11.who.limit", "C11.who.alloc-callers")}, 6),
+]
+
+
 def run(ctx):
     MAXV = str(ctx.const(MAXC))       # named constants are folded to their value in the normal form
     crate = ctx.crate()
